@@ -94,9 +94,11 @@ class StdCheck(Check):
                 seen[cl].append(shown)
                 res.spec_failures.append(runner.Finding("spec", f"spec:{self.prop}:{cl}", shown, {"driver": l}))
         n = 0
+        tried = 0
         seen_m = set()
         for l in lines:
-            if l.startswith("MISMATCH") and n < self.max_shrunk:
+            if l.startswith("MISMATCH") and n < self.max_shrunk and tried < 2 * self.max_shrunk:
+                tried += 1   # bounded: thousands of disagreements that shrink to the same witness must not be shrunk one by one
                 kv = core.parse_kv(l)
                 case = runner.extract_case(save, int(kv["case"]), self.case_start)
                 shown = self.shrink(harness, driver, case, "MISMATCH")
